@@ -231,11 +231,13 @@ func (r *R) State(ctx sdk.Context) string { return r.state(ctx) }
 
 // GenesisState is the part of the projection that must survive an export/import round trip
 // (hx.GenesisStater): ExportGenesis keeps only OPEN contracts by design, so closed contracts are
-// left out, as are the queue entries of anything but open contracts, the block header and the
-// bank slice (x/bank's own genesis).
+// left out, as are the block header and the bank slice (x/bank's own genesis).  The expiry queue
+// is derived data (InitGenesis rebuilds it from the contracts' expiration heights, which stay in
+// `htlcs=`; PrepForZeroHeightGenesis rewrites those heights but not the queue keys), and its
+// consistency with the contracts is C13's business: it is not part of this projection.
 func (r *R) GenesisState(ctx sdk.Context) string {
-	prev, params, hs, qs, ss := r.moduleParts(ctx, true)
-	return fmt.Sprintf("prev=%s params=%s htlcs=%s queue=%s sup=%s", prev, params, join(hs), join(qs), join(ss))
+	prev, params, hs, _, ss := r.moduleParts(ctx, true)
+	return fmt.Sprintf("prev=%s params=%s htlcs=%s sup=%s", prev, params, join(hs), join(ss))
 }
 
 // moduleParts renders the five tables of the module store (openOnly: only open contracts and their entries).
